@@ -702,4 +702,162 @@ theorem clobber_of_token (eqs : List (Equation β)) (plan : Plan) (i j : Nat) (e
 
 end converse
 
+/-! ### row numbering is immaterial -/
+
+section rename
+variable {β : Type}
+variable [Carrier β]
+
+theorem Expr.eval_rename (num : Nat → Nat) (tbl tbl' : Table β) (h : Agree num tbl tbl') (e : Expr β) (t : Int) :
+    (e.rename num).eval tbl' t = e.eval tbl t := by
+  induction e with
+  | const c => rfl
+  | var r s => exact h r (t + s)
+  | neg a ih => simp only [Expr.rename, Expr.eval, ih]
+  | add a b iha ihb => simp only [Expr.rename, Expr.eval, iha, ihb]
+  | sub a b iha ihb => simp only [Expr.rename, Expr.eval, iha, ihb]
+  | mul a b iha ihb => simp only [Expr.rename, Expr.eval, iha, ihb]
+  | div a b iha ihb => simp only [Expr.rename, Expr.eval, iha, ihb]
+  | fn k a ih => simp only [Expr.rename, Expr.eval, ih]
+
+theorem Equation.lagVal_rename (num : Nat → Nat) (tbl tbl' : Table β) (h : Agree num tbl tbl') (eq : Equation β) (t : Int) :
+    (eq.rename num).lagVal tbl' t = eq.lagVal tbl t := by
+  unfold Equation.lagVal Equation.rename
+  simp only
+  cases eq.tr.lagShift with
+  | none => rfl
+  | some s => exact h _ _
+
+theorem Equation.rhsFull_rename (num : Nat → Nat) (tbl tbl' : Table β) (h : Agree num tbl tbl') (eq : Equation β) (t : Int) :
+    (eq.rename num).rhsFull tbl' t = eq.rhsFull tbl t := by
+  unfold Equation.rhsFull Equation.rename
+  simp only [Expr.eval_rename num tbl tbl' h, h eq.res t]
+
+theorem Equation.evalLevel_rename (num : Nat → Nat) (tbl tbl' : Table β) (h : Agree num tbl tbl') (eq : Equation β) (t : Int) :
+    (eq.rename num).evalLevel tbl' t = eq.evalLevel tbl t := by
+  unfold Equation.evalLevel
+  rw [Equation.lagVal_rename num tbl tbl' h, Equation.rhsFull_rename num tbl tbl' h]
+  rfl
+
+theorem Equation.evalResidual_rename (num : Nat → Nat) (tbl tbl' : Table β) (h : Agree num tbl tbl') (eq : Equation β) (t : Int) :
+    (eq.rename num).evalResidual tbl' t = eq.evalResidual tbl t := by
+  unfold Equation.evalResidual Equation.lhsValue
+  rw [Equation.lagVal_rename num tbl tbl' h, Equation.rhsFull_rename num tbl tbl' h]
+  show IrisVerif.Gen.Explanatory.residualBody V.exp V.log (eq.tr.apply (tbl' (num eq.lhs) t) _) _ = _
+  rw [h eq.lhs t]
+
+theorem Agree.set (num : Nat → Nat) (hinj : Function.Injective num) (tbl tbl' : Table β) (h : Agree num tbl tbl')
+    (r : Nat) (c : Int) (v : V β) : Agree num (tbl.set r c v) (tbl'.set (num r) c v) := by
+  intro r2 c2
+  simp only [Table.set]
+  by_cases hr : r2 = r
+  · subst hr; simp [h r2 c2]
+  · have : num r2 ≠ num r := fun e => hr (hinj e)
+    simp [hr, this, h r2 c2]
+
+
+theorem detectExogenized_rename (num : Nat → Nat) (tbl tbl' : Table β) (h : Agree num tbl tbl') (lhsRow : Nat)
+    (p : PlanPoint) (t : Int) :
+    detectExogenized tbl' (num lhsRow) (p.rename num) t = detectExogenized tbl lhsRow p t := by
+  unfold detectExogenized PlanPoint.rename planLagColumn
+  simp only
+  cases hp : p.target with
+  | none => simp only [Option.map_none, h lhsRow]
+  | some r => simp only [Option.map_some, h r t, h lhsRow]
+
+theorem branchOf_rename (num : Nat → Nat) (tbl tbl' : Table β) (h : Agree num tbl tbl') (plan plan' : Plan)
+    (hp : PlanAgree num plan plan') (eq : Equation β) (t : Int) :
+    branchOf plan' (eq.rename num) tbl' t = branchOf plan eq tbl t := by
+  unfold branchOf getTransform
+  have : (eq.rename num).identity = eq.identity := rfl
+  rw [this]
+  by_cases hi : eq.identity
+  · simp [hi]
+  · simp only [hi, Bool.false_eq_true, if_false]
+    show (match plan' (num eq.lhs) t with | none => _ | some p => _) = _
+    rw [hp eq.lhs t]
+    cases plan eq.lhs t with
+    | none => rfl
+    | some p => exact detectExogenized_rename num tbl tbl' h eq.lhs p t
+
+theorem runStatement_rename (num : Nat → Nat) (hinj : Function.Injective num) (tbl tbl' : Table β)
+    (h : Agree num tbl tbl') (eq : Equation β) (t : Int) (v : V β) (code : Nat) :
+    RelE num (runStatement eq t v tbl code) (runStatement (eq.rename num) t v tbl' code) := by
+  match code with
+  | 0 => exact Agree.set num hinj tbl tbl' h eq.lhs t v
+  | 1 => exact Agree.set num hinj tbl tbl' h eq.res t _
+  | 2 =>
+    show Agree num _ (tbl'.set (num eq.res) t ((eq.rename num).evalResidual tbl' t))
+    rw [Equation.evalResidual_rename num tbl tbl' h]
+    exact Agree.set num hinj tbl tbl' h eq.res t _
+  | 3 =>
+    show Agree num _ (tbl'.set (num eq.lhs) t ((eq.rename num).evalLevel tbl' t))
+    rw [Equation.evalLevel_rename num tbl tbl' h]
+    exact Agree.set num hinj tbl tbl' h eq.lhs t _
+  | (n + 4) => exact rfl
+
+theorem runSteps_rename (num : Nat → Nat) (hinj : Function.Injective num) (codes : List Nat) (tbl tbl' : Table β)
+    (h : Agree num tbl tbl') (eq : Equation β) (t : Int) (v : V β) :
+    RelE num (runSteps codes eq t v tbl) (runSteps codes (eq.rename num) t v tbl') := by
+  induction codes generalizing tbl tbl' with
+  | nil => exact h
+  | cons c rest ih =>
+    have h1 := runStatement_rename num hinj tbl tbl' h eq t v c
+    simp only [runSteps, List.foldlM_cons, bind, Except.bind]
+    cases ha : runStatement eq t v tbl c with
+    | error e =>
+      cases hb : runStatement (eq.rename num) t v tbl' c with
+      | error e' => rw [ha, hb] at h1; exact h1
+      | ok b => rw [ha, hb] at h1; exact h1.elim
+    | ok a =>
+      cases hb : runStatement (eq.rename num) t v tbl' c with
+      | error e' => rw [ha, hb] at h1; exact h1.elim
+      | ok b =>
+        rw [ha, hb] at h1
+        exact ih a b h1
+
+theorem stepWith_rename (num : Nat → Nat) (hinj : Function.Injective num) (sim exo : List Nat)
+    (eqs : List (Equation β)) (plan plan' : Plan) (hp : PlanAgree num plan plan') (tbl tbl' : Table β)
+    (h : Agree num tbl tbl') (s : Int × Nat) :
+    RelE num (stepWith sim exo eqs plan tbl s) (stepWith sim exo (eqs.map (Equation.rename num)) plan' tbl' s) := by
+  unfold stepWith
+  rw [List.getElem?_map]
+  cases heq : eqs[s.2]? with
+  | none => exact rfl
+  | some eq =>
+    simp only [Option.map_some, bind, Except.bind]
+    rw [branchOf_rename num tbl tbl' h plan plan' hp eq s.1]
+    cases branchOf plan eq tbl s.1 with
+    | error e => exact rfl
+    | ok o =>
+      cases o with
+      | none => exact runSteps_rename num hinj sim tbl tbl' h eq s.1 V.nan
+      | some v => exact runSteps_rename num hinj exo tbl tbl' h eq s.1 v
+
+/-- **Row numbering is immaterial.**  Renumbering the rows by any injective map (equations, plan and data array alike) renumbers
+the result of the simulation in the same way: errors coincide, and the final data arrays agree cell by cell through the map. -/
+theorem simulateWith_rename (num : Nat → Nat) (hinj : Function.Injective num) (sim exo : List Nat)
+    (eqs : List (Equation β)) (plan plan' : Plan) (hp : PlanAgree num plan plan') (sched : List (Int × Nat))
+    (tbl tbl' : Table β) (h : Agree num tbl tbl') :
+    RelE num (simulateWith sim exo eqs plan tbl sched)
+      (simulateWith sim exo (eqs.map (Equation.rename num)) plan' tbl' sched) := by
+  induction sched generalizing tbl tbl' with
+  | nil => exact h
+  | cons s rest ih =>
+    have h1 := stepWith_rename num hinj sim exo eqs plan plan' hp tbl tbl' h s
+    simp only [simulateWith, List.foldlM_cons, bind, Except.bind]
+    cases ha : stepWith sim exo eqs plan tbl s with
+    | error e =>
+      cases hb : stepWith sim exo (eqs.map (Equation.rename num)) plan' tbl' s with
+      | error e' => rw [ha, hb] at h1; exact h1
+      | ok b => rw [ha, hb] at h1; exact h1.elim
+    | ok a =>
+      cases hb : stepWith sim exo (eqs.map (Equation.rename num)) plan' tbl' s with
+      | error e' => rw [ha, hb] at h1; exact h1.elim
+      | ok b =>
+        rw [ha, hb] at h1
+        exact ih a b h1
+
+end rename
+
 end IrisVerif.Seq
